@@ -44,13 +44,8 @@ def run(ctx):
         "NOT decided: equality of the re-parsed interface for all parameter lists; nothing about types, "
         "descriptions or default values (value level)",
     ]
-    _align_parse(ctx, index)
-    _align_emit(ctx, index)
-    _shape(ctx, index)
-    _keywords(ctx, index)
-    _optional(ctx, index)
-    _falsy(ctx, index)
-    _order_rule(ctx, index)
+    for rule in (_align_parse, _align_emit, _shape, _keywords, _optional, _falsy, _order_rule):
+        ctx.section(rule, ctx, index)
 
 
 # ------------------------------------------------------------------- align
